@@ -61,6 +61,7 @@ type Shared struct {
 	deadline time.Time
 	tier    string
 	secondSolver string
+	seed int
 	fixedMapOrder bool
 
 	mu        sync.Mutex
@@ -580,8 +581,9 @@ func (e *Engine) reportFinding(kind, label, detail string) {
 
 // maybeSample keeps a concrete witness of some completed paths.
 func (e *Engine) maybeSample() {
-	n := e.st.Completed
-	// sample path 1, 2, 4, 8, ... of each worker, capped
+	// sample completed paths 1, 2, 4, 8, ... of each worker (shifted by
+	// VERIF_SEED, so different seeds validate different paths natively), capped
+	n := e.st.Completed + e.sh.seed%7
 	if n&(n-1) != 0 || n > 4096 {
 		return
 	}
